@@ -651,7 +651,7 @@ def _weight(fields):
 
 
 def prelude(tier):
-    notes = codec.validate()
+    notes = codec.validate(text_deep=(tier == 'thorough'))
     # pinned table vs code: every pinned class must exist (else its job reports it); extra classes are not covered
     in_code = set()
     for base in (M.ServerMessage, M.PeerInitializationMessage, M.PeerMessage, M.DistributedMessage):
